@@ -376,6 +376,8 @@ pub fn profile() -> Profile {
     p.p_teleport = 1;
     p.kind_w[7] = 4;
     p.low_dosc_start = true;
+    // the historic mainnet faucet, exempt from de-duplication, can be applied again and again (rewriting the same coin)
+    p.grandfathered_faucet = true;
     p
 }
 
